@@ -77,6 +77,10 @@ const PROBES: [&str; 9] = ["CONT", "RETURN", "NEXT I", "READ Z: PRINT Z", "PRINT
 /// Typed at the suspension point before the edit: a loop opened in immediate mode is a
 /// runtime reference like any other.
 const PRE_EDIT: &str = "FOR K=1 TO 3";
+/// Also typed before the edit: an immediate READ (opens the DATA cursor from immediate mode).
+const PRE_EDIT_READ: &str = "READ Z9";
+/// Pseudo boundary: the program has been entered but nothing has been run since.
+const NEVER_RUN: usize = usize::MAX;
 
 /// Runs the program up to turn boundary `k` and suspends there. Returns None if the run has
 /// fewer boundaries. The history (host calls) is returned for replay files.
@@ -89,11 +93,16 @@ fn suspend_at(p: &Prog, k: usize) -> Option<(Sess, Vec<Ev>, Option<u64>)> {
         hist.push(e);
     }
     let mut replies = p.replies.iter();
-    let e = Ev::Line("RUN".into());
-    let _ = s.apply(&e);
-    hist.push(e);
     let mut turns = 0usize;
+    if k != NEVER_RUN {
+        let e = Ev::Line("RUN".into());
+        let _ = s.apply(&e);
+        hist.push(e);
+    }
     loop {
+        if k == NEVER_RUN {
+            break;
+        }
         if turns == k {
             break;
         }
@@ -124,9 +133,11 @@ fn suspend_at(p: &Prog, k: usize) -> Option<(Sess, Vec<Ev>, Option<u64>)> {
         let _ = s.apply(&Ev::Break);
         hist.push(Ev::Break);
     }
-    let e = Ev::Line(PRE_EDIT.to_string());
-    let _ = s.apply(&e);
-    hist.push(e);
+    for pre in [PRE_EDIT, PRE_EDIT_READ] {
+        let e = Ev::Line(pre.to_string());
+        let _ = s.apply(&e);
+        hist.push(e);
+    }
     let bp = s.it.verif_snapshot().breakpoint.map(|b| b.0);
     s.recs.clear();
     Some((s, hist, bp))
@@ -168,6 +179,10 @@ pub fn run(thorough: bool) -> Report {
     let progs = programs();
     let mut points = 0u64;
     for (pi, p) in progs.iter().enumerate() {
+        points += 1;
+        for (ei, _) in edits.iter().enumerate() {
+            jobs.push((pi, NEVER_RUN, ei));
+        }
         for k in 0..200 {
             if suspend_at(p, k).is_none() {
                 break;
